@@ -60,6 +60,7 @@ func init() {
 
 		"strings.Contains":                 extContains,
 		"strings.HasPrefix":                extHasPrefix,
+		"strings.HasSuffix":                extHasSuffix,
 		"internal/stringslite.HasPrefix":   extHasPrefix,
 		"strings.ToLower":                  extToLower,
 		"strings.ToUpper":                  extToUpper,
@@ -1135,7 +1136,19 @@ func extSscanf(fr *frame, args []value) value {
 	scanErr := func(msg string) value {
 		return tuple{0, i.newError(msg)}
 	}
-	if t, ok := asDecimal(args[0]); ok {
+	t, ok := asDecimal(args[0])
+	if !ok {
+		// a decimal segment followed by something that cannot extend its digits
+		// ("<n>\n"): %d reads the segment and stops
+		if ss, isSym := args[0].(symstr); isSym && len(ss.b) >= 2 {
+			if d, isDec := ss.b[0].(decSeg); isDec && !seqHasDec(ss.b[1:]) {
+				if isD, known := isDigitByte(ss.b[1]); known && !isD {
+					t, ok = d.t, true
+				}
+			}
+		}
+	}
+	if ok {
 		if kindWidth(bk.Kind()) != 64 || kindSigned(bk.Kind()) {
 			panic(engineError("fmt.Sscanf of a decimal segment into a non-uint64"))
 		}
@@ -1216,6 +1229,52 @@ func extHasPrefix(fr *frame, args []value) value {
 		return false
 	}
 	return i.strEq(strSlice(s, 0, lp), p)
+}
+
+// strings.HasSuffix; strings with decimal segments are compared on their trailing concrete
+// part (a decimal segment holds digits only, so a non-digit cannot match inside it).
+func extHasSuffix(fr *frame, args []value) value {
+	i := fr.i
+	s, p := args[0], args[1]
+	if hasDec(p) {
+		panic(engineError("HasSuffix: suffix with a decimal segment"))
+	}
+	lp := strLen(p)
+	if lp == 0 {
+		return true
+	}
+	if hasDec(s) {
+		elems := s.(symstr).b
+		trail := 0
+		for trail < len(elems) {
+			if _, isDec := elems[len(elems)-1-trail].(decSeg); isDec {
+				break
+			}
+			trail++
+		}
+		n := lp
+		if trail < n {
+			n = trail
+		}
+		r := i.strEq(mkstr(elems[len(elems)-n:]), strSlice(p, lp-n, lp))
+		if r == false {
+			return false
+		}
+		if lp <= trail {
+			return r
+		}
+		// the suffix reaches into the decimal segment
+		pe := strElems(p)
+		if isD, known := isDigitByte(pe[lp-n-1]); known && !isD {
+			return false
+		}
+		panic(engineError("HasSuffix: suffix extends into a decimal segment"))
+	}
+	if strLen(s) < lp {
+		return false
+	}
+	ls := strLen(s)
+	return i.strEq(strSlice(s, ls-lp, ls), p)
 }
 
 // encoding/json.Marshal for values whose type provides MarshalJSON: the result is what
